@@ -24,6 +24,16 @@ FAULTS = [
     ("like-impl-for-other-type", ("string",), ("str", "abc"), "=~ 5", "5"),
     ("like-impl-for-other-type-expr", ("string",), ("str", "abc"), "=~ (1, 2)", "(1, 2)"),
     ("like-impl-for-other-type-bool", ("string",), ("str", "abc"), "=~ true", "true"),
+    # operands written as more than one token (on a stable compiler spans cannot be joined: the stamp is the first token's)
+    ("wrong-operand-type-negative", ("string",), ("str", "abc"), "== -1", "-1"),
+    ("wrong-operand-type-negative-float", ("int", "i32"), ("int", 3), "> -1.5", "-1.5"),
+    ("wrong-operand-type-path", ("string",), ("str", "abc"), "<= i32::MAX", "i32::MAX"),
+    ("wrong-operand-type-call", ("string",), ("str", "abc"), '>= "abc".len()', '"abc".len()'),
+    ("wrong-operand-type-sum", ("string",), ("str", "abc"), "!= 1 + 2", "1 + 2"),
+    ("wrong-literal-type-negative", ("string",), ("str", "abc"), "-1", "-1"),
+    ("wrong-range-type-negative", ("string",), ("str", "abc"), "-5..=-1", "-5..=-1"),
+    ("missing-like-impl-call", ("int", "i32"), ("int", 3), '=~ String::from("x")', 'String::from("x")'),
+    ("wrong-map-key-type-negative", ("map", ("string",), ("int", "i32")), ("map", [("str", "k")], [("int", 1)]), '#{ -5: 1 }', "-5"),
 ]
 STRUCT_FAULTS = [
     ("unknown-field", "Inner { nope: 1, .. }", "nope"),
@@ -112,7 +122,7 @@ def run(ck):
             ck.report(key, "no error of an ill-typed sub-pattern has its primary location on that sub-pattern (best: %s)" % where,
                       dict(fault=c["kind"], position=c["position"], invocation="assert_struct!(v, %s)" % c["pattern"], value_type=c["type"], faulty_subpattern=c["inner"],
                            expected_columns=[c["col0"], c["col1"]], errors=[dict(code=d["code"], message=d["message"], primary=[(s["ls"], s["cs"], s["le"], s["ce"]) for s in d["spans"] if s["primary"]]) for d in r["diags"]][:4]))
-    ck.corr_record("T3 single type faults (8 leaf faults + 6 field-path faults, each injected at the 17 positions; rustc JSON diagnostics: some error's primary span must lie on the faulty sub-pattern)",
+    ck.corr_record("T3 single type faults (25 leaf faults, operands of one and of several tokens, + 9 field-path faults, each injected at the 17 positions; rustc JSON diagnostics: some error's primary span must lie on the faulty sub-pattern)",
                    len(cases), len(cases), 0, dist,
                    samples=[dict(fault=c["kind"], position=c["position"], invocation="assert_struct!(v, %s)" % c["pattern"]) for c in cases[:3]],
                    exhaustive=True, rule="the full fault x position matrix; every program distinct")
